@@ -158,8 +158,11 @@ def catalogue_events(ctx, rng):
         sig0.update({'class': family})
         try:
             op = fn()
+        except NotImplementedError:
+            continue                    # the operator does not offer this derived operator
         except Exception as ex:
-            notbuilt.append('%s %s (%s)' % (family, opts, type(ex).__name__))
+            if 'via' not in opts:
+                notbuilt.append('%s %s (%s)' % (family, opts, type(ex).__name__))
             continue
         C.classes_in(op, reached)
         unit = tol_unit(op)
